@@ -431,7 +431,7 @@ example : let c : Cfg := { nbits := 16, es := 5, bt := 16, sub := true }
 
 /-! ### long double sources (x86-64 80-bit; transcript pattern sign | 15 | 63) — `fromLD` -/
 
-/-- the full statement for long double sources (false of the pinned code, see the counterexamples below) -/
+/-- the full statement for long double sources (false of the pinned code: `C03_cfloat_from_f80_full_false`) -/
 def C03_cfloat_from_f80_full : Prop :=
   ∀ (c : Cfg) (bits : Nat), c.valid = true → (c.nbits ≤ 64 ∨ 63 ≤ c.fbits) → bits < 2 ^ 79 →
     satisfies c (C03_cfloat_expect (ieeeVal 15 63 bits)) (fromLD c ieeeF80_qnanmask ieeeF80_snanmask ieeeF80_hmask bits) = true
@@ -486,25 +486,44 @@ example : let c : Cfg := { nbits := 16, es := 5, bt := 16, sub := true }
     fromLD c ieeeF80_qnanmask ieeeF80_snanmask ieeeF80_hmask 0x1fff8010000000000000 = 0x3c00 := by
   decide +kernel
 
-/-- known finding cfloat.from_ld.hidden_mask: 5/1024 = 2.5·minpos of cfloat<8,4,sub> is a tie and must give 2; the
-    hidden-bit mask 0x8000'0000'0000'0001 sets bit 0, which reads as sticky: 3 -/
-theorem C03_cfloat_from_f80_hidden_mask_counterexample :
+/-- former finding cfloat.from_ld.hidden_mask (repaired: `ieee754_parameter<long double>::hmask` is the integer bit only):
+    5/1024 = 2.5·minpos of cfloat<8,4,sub> is a tie and gives the even neighbour 2 (it gave 3 while hmask had bit 0 set —
+    checked here with the old constant as well) -/
+theorem C03_cfloat_from_f80_hidden_mask_cfg :
     let c : Cfg := { nbits := 8, es := 4, bt := 8, sub := true }
-    fromLD c ieeeF80_qnanmask ieeeF80_snanmask ieeeF80_hmask 0x1ffba000000000000000 = 3 ∧
-    satisfies c (C03_cfloat_expect (ieeeVal 15 63 0x1ffba000000000000000)) 3 = false ∧
-    satisfies c (C03_cfloat_expect (ieeeVal 15 63 0x1ffba000000000000000)) 2 = true := by
+    ieeeF80_hmask = 2 ^ 63 ∧
+    fromLD c ieeeF80_qnanmask ieeeF80_snanmask ieeeF80_hmask 0x1ffba000000000000000 = 2 ∧
+    satisfies c (C03_cfloat_expect (ieeeVal 15 63 0x1ffba000000000000000)) 2 = true ∧
+    fromLD c ieeeF80_qnanmask ieeeF80_snanmask (2 ^ 63 + 1) 0x1ffba000000000000000 = 3 ∧
+    satisfies c (C03_cfloat_expect (ieeeVal 15 63 0x1ffba000000000000000)) 3 = false := by
   decide +kernel
 
-/-- known finding cfloat.from_ld.shift64: 2^-10 = minpos/2 of cfloat<8,4,sub> (a tie: 0) shifts by 64 and gives minpos -/
-theorem C03_cfloat_from_f80_shift64_counterexample :
+/-- former finding cfloat.from_ld.shift64 (repaired: the lsb mask, the guard mask and the fraction shift are guarded for a
+    count of 64): 2^-10 = minpos/2 of cfloat<8,4,sub> is a tie and gives 0, the next long double above it gives minpos, the
+    largest long double below minpos gives minpos, 3/4·minpos gives minpos -/
+theorem C03_cfloat_from_f80_shift64_cfg :
     let c : Cfg := { nbits := 8, es := 4, bt := 8, sub := true }
-    fromLD c ieeeF80_qnanmask ieeeF80_snanmask ieeeF80_hmask 0x1ffa8000000000000000 = 1 ∧
-    satisfies c (C03_cfloat_expect (ieeeVal 15 63 0x1ffa8000000000000000)) 1 = false := by
+    fromLD c ieeeF80_qnanmask ieeeF80_snanmask ieeeF80_hmask 0x1ffa8000000000000000 = 0 ∧
+    satisfies c (C03_cfloat_expect (ieeeVal 15 63 0x1ffa8000000000000000)) 0 = true ∧
+    fromLD c ieeeF80_qnanmask ieeeF80_snanmask ieeeF80_hmask 0x1ffa8000000000000001 = 1 ∧
+    satisfies c (C03_cfloat_expect (ieeeVal 15 63 0x1ffa8000000000000001)) 1 = true ∧
+    fromLD c ieeeF80_qnanmask ieeeF80_snanmask ieeeF80_hmask 0x1ffaffffffffffffffff = 1 ∧
+    fromLD c ieeeF80_qnanmask ieeeF80_snanmask ieeeF80_hmask 0x5ffac000000000000000 = 0x81 := by
   decide +kernel
 
+/-- finite check over the whole subnormal range of cfloat<6,2,sub> (fbits 3): every long double k/64·minpos·… built from the
+    target lattice — all multiples of minpos/8 from 0 to 2·minNormal, i.e. every value, tie and quarter point — is correctly rounded -/
+theorem C03_cfloat_from_f80_subnormal_cfg_6_2 :
+    ∀ k : Fin 129, let c : Cfg := { nbits := 6, es := 2, bt := 8, sub := true }
+      let bits := ieeeEncode 15 63 (.fin false ((k.val : Rat) / 64))
+      satisfies c (C03_cfloat_expect (ieeeVal 15 63 bits)) (fromLD c ieeeF80_qnanmask ieeeF80_snanmask ieeeF80_hmask bits) = true := by
+  decide +kernel
+
+/-- the full statement is still false: targets with fbits ≥ 63 have no subnormal handling on the block path (known finding
+    cfloat.from_ld.wide_subnormal_target): 2^-1023 into cfloat<80,11,sub> gives 0 -/
 theorem C03_cfloat_from_f80_full_false : ¬ C03_cfloat_from_f80_full := by
   intro h
-  have := h { nbits := 8, es := 4, bt := 8, sub := true } 0x1ffba000000000000000 (by decide) (by decide) (by decide)
+  have := h { nbits := 80, es := 11, bt := 8, sub := true } 0x1e000000000000000000 (by decide) (by decide) (by decide)
   revert this
   decide +kernel
 
